@@ -12,8 +12,9 @@ from hexital import Hexital  # noqa: E402
 
 
 def member(spec: Dict, tf: Optional[str] = None):
-    """An indicator object without candles, optionally on its own timeframe."""
-    cfg = {"tf": tf} if tf else {}
+    """An indicator object without candles, optionally on its own timeframe (and then with
+    the timeframe_fill flag the spec asks for: inside a Hexital the Hexital's flag governs)."""
+    cfg = {"tf": tf, "fill": bool(spec.get("own_fill"))} if tf else {}
     return X.build(spec, [], cfg)
 
 
